@@ -168,13 +168,41 @@ def region_mask_zero_size(case):
     return isinstance(m, dict) and "boolarr" in m and len(m.get("shape", [])) >= 2
 
 
+def _dask_elem(e, what):
+    return isinstance(e, dict) and "dask" in e and what in e["dask"]
+
+
+def region_dask_int_with_neighbours(case):
+    """A dask INTEGER array index next to any other index element (int, None, non-full slice), or followed
+    by a second indexing step."""
+    if case["kind"] not in ("getitem", "unknown"):
+        return False
+    t = case["index"]["tuple"]
+    if not any(_dask_elem(e, "intarr") for e in t):
+        return False
+    full = gidx.enc(slice(None))
+    return "then" in case or any(not (isinstance(e, dict) and "dask" in e) and e != full for e in t)
+
+
+def region_dask_bool_then_index(case):
+    """A dask BOOLEAN array index (unknown chunk sizes) followed by a second indexing step."""
+    if case["kind"] not in ("getitem", "unknown"):
+        return False
+    return "then" in case and any(_dask_elem(e, "boolarr") for e in case["index"]["tuple"])
+
+
 REGIONS = {
+    "KF-dask-int-index-with-neighbours": region_dask_int_with_neighbours,
+    "KF-dask-bool-index-then-index": region_dask_bool_then_index,
     "KF-index-multi-fancy-dask": region_multi_fancy_dask,
     "KF-blocks-empty-selection": region_blocks_empty,
     "KF-index-int-fancy-separated": region_int_and_fancy_separated,
     "KF-vindex-slice-multiblock": region_vindex_slice,
     "KF-reshape-zero-size": region_mask_zero_size,
 }
+
+
+SOFT_REGIONS = {"KF-dask-int-index-with-neighbours", "KF-dask-bool-index-then-index"}
 
 
 def _register_regions():
@@ -192,6 +220,8 @@ def excluded(case):
 
     open_ids = exclusions._open_ids()
     for fid, fn in REGIONS.items():
+        if fid in SOFT_REGIONS:
+            continue  # most cases in these regions work: they keep being generated and compared
         if fid in open_ids and fn(case):
             return fid
     return None
@@ -271,7 +301,9 @@ def run_case(case):
         if np_raises is not None:
             labs.append("both-raise")
             return labs, []
-        if lenient:
+        if lenient and isinstance(e, (IndexError, ValueError, TypeError)):
+            # a refusal of an unsupported form; an internal crash (AttributeError, KeyError, AssertionError,
+            # RuntimeError ...) is not one
             labs.append("refused-lenient")
             return labs, []
         return labs, [(util.exc_bucket(f"{kind}-{stage}-raises-numpy-accepts", e), util.exc_detail(e))]
